@@ -53,6 +53,7 @@ PROPS['C11'] = dict(
     assumptions=['each exported *IPDB method is one atomic step (gofacts: gf_ipdb_methods_locked)', 'the clock is non-decreasing'],
 )
 PROPS['C12']['spec_equal_tags'] = {1201, 1203}
+PROPS['C12']['monitor_tags'] = set(PROPS['C12'].get('monitor_tags', ())) | {1204}
 
 SERVER_RULE = ('sequential server histories under testing/synctest: 1-5 clients (no / short / RFC 4361 / hardware-type client identifiers, forged internal '
                'identifiers, shared identifiers), reservations inside and outside the dynamic range, pools of 1-6 addresses at the edges of /23-/29 networks, '
